@@ -14,6 +14,7 @@ import (
 	"github.com/brimdata/super/api"
 	"github.com/brimdata/super/lake"
 	"github.com/brimdata/super/lake/data"
+	"github.com/brimdata/super/lake/seekindex"
 	"github.com/brimdata/super/zio/zngio"
 	"github.com/brimdata/super/zson"
 	"github.com/segmentio/ksuid"
@@ -224,6 +225,42 @@ func (r *Real) readFile(pool *lake.Pool, id ksuid.KSUID) ([]int, error) {
 	}
 }
 
+// readSeek reads the seek index file of a data object.
+func (r *Real) readSeek(pool *lake.Pool, id ksuid.KSUID) ([]SeekObs, error) {
+	ctx := context.Background()
+	rc, err := pool.Storage().Get(ctx, data.SeekIndexURI(pool.DataPath, id))
+	if err != nil {
+		return nil, err
+	}
+	defer rc.Close()
+	zr := zngio.NewReader(zed.NewContext(), rc)
+	defer zr.Close()
+	u := zson.NewZNGUnmarshaler()
+	var out []SeekObs
+	for {
+		v, err := zr.Read()
+		if err != nil {
+			return nil, err
+		}
+		if v == nil {
+			return out, nil
+		}
+		var e seekindex.Entry
+		if err := u.Unmarshal(*v, &e); err != nil {
+			return nil, err
+		}
+		mn, err := keyAtomOfZSON(zson.FormatValue(e.Min.MissingAsNull()))
+		if err != nil {
+			return nil, err
+		}
+		mx, err := keyAtomOfZSON(zson.FormatValue(e.Max.MissingAsNull()))
+		if err != nil {
+			return nil, err
+		}
+		out = append(out, SeekObs{Min: mn, Max: mx, Off: int(e.ValOff), Cnt: int(e.ValCnt)})
+	}
+}
+
 type rawObj struct {
 	K     ksuid.KSUID
 	Min   string
@@ -356,6 +393,12 @@ func (r *Real) Observe(commits bool) (*StepObs, error) {
 				oo.Gone = true
 			}
 			oo.Toks = toks
+			if !oo.Gone {
+				oo.Seek, err = r.readSeek(pool, ro.K)
+				if err != nil {
+					return nil, fmt.Errorf("object %d: seek index: %w", a, err)
+				}
+			}
 			bo.Objs = append(bo.Objs, oo)
 		}
 		sort.Slice(bo.Objs, func(i, j int) bool { return bo.Objs[i].ID < bo.Objs[j].ID })
